@@ -13,7 +13,7 @@ SHAPE_KEYS = ["fileio.py::", "_write_csv_file", "AbstractInventory::to_csv", "Ab
               "InventoryHP::__init__"]
 PARTIAL = ["the row-seam model (Model/Csv.v) is hand-written except the to_csv unit dispatch (generated); tie = recorded source text + real-file correspondence",
            "the numeric round trip (str(float) / float(str), csv codec, encodings) is runtime behaviour: decided through real files, not proved",
-           "InventoryHP: amounts below ~1e-32 in the file's unit are flushed to zero by nsimplify (known finding F13)"]
+           "InventoryHP amounts below ~1e-32 used to be flushed to zero (F13, fixed in /repo 1c72014); the recorded input is still re-run on every check"]
 TRUSTED_BASE = ["Coq 8.16.1 kernel", "axioms: none", "tr_pure.py (dispatch chain), tr_shapes.py source-text ties", "harness tools/impl_csv.py (real files in a temporary directory)"]
 ASSUMPTIONS = ["csv module, text codecs and float repr/parse are inverse on the exercised fields"]
 
